@@ -31,6 +31,13 @@ CHECKS['C14'] = (
     'Trusts pint to build and compare quantities. Excludes offset/log units, float32 magnitudes, >1-D quantity arrays and '
     'plain strings of the reserved !units[...] form; a bare Unit is expected back as 1*unit; int magnitudes may come back as equal floats.')
 
+CHECKS['C18'] = (
+    'Hypothesis-generated raw histories and query sets: cell-by-cell transposition oracle and round trip, through pure functions, RAMEmitter and a real Engine',
+    'Generated search over fixed-shape histories with falsy values and quantities; every timeseries/path-timeseries cell is '
+    'compared with the raw data it came from and the query result with an independently computed projection.',
+    'Histories have one shape at all times, no variable is called "time", no None values; query paths do not descend through a leaf value; '
+    'int magnitudes may read back as equal floats.')
+
 NOT_YET = 'check not built yet in this session (planned, see DESIGN.md section 8)'
 
 
